@@ -50,9 +50,41 @@ fn dig_f(v: &[F]) -> String {
     dig(&b)
 }
 
+/// Indices >= ZOO_BASE: tiny circuits (4..16 rows) under FRI reduction strategies that the defaults never
+/// use (arity larger than the final-polynomial bound, arity above the degree, one-layer Fixed lists) —
+/// the corner where release and checked arithmetic, or two builds, could disagree about the parameters.
+const ZOO_BASE: u64 = 1000;
+const ZOO: u64 = 10;
+
+fn script_indices(quick: bool) -> Vec<u64> {
+    let n_circ: u64 = if quick { 6 } else { 24 };
+    (0..n_circ).chain(ZOO_BASE..ZOO_BASE + ZOO).collect()
+}
+
 fn script_program(seed: u64, i: u64) -> (circ::Program, Vec<u64>, CircuitConfig) {
     let mut rng = crate::mon::case_rng(seed, 19_001, i);
     let bset = gen::boundary_set();
+    if i >= ZOO_BASE {
+        use plonky2::fri::reduction_strategies::FriReductionStrategy as S;
+        let opts = GenOpts { n_ops: rng.gen_range(1..5), lookups: false, hashing: false, extension: false, max_table_len: 4, only_base2: true };
+        let (p, inp) = circ::gen_program(&mut rng, &bset, &opts);
+        let mut cfg = circ::fast_config();
+        cfg.fri_config.reduction_strategy = match (i - ZOO_BASE) % ZOO {
+            0 => S::ConstantArityBits(4, 1),
+            1 => S::ConstantArityBits(3, 0),
+            2 => S::ConstantArityBits(2, 1),
+            3 => S::ConstantArityBits(1, 0),
+            4 => S::ConstantArityBits(4, 2),
+            5 => S::ConstantArityBits(5, 1),
+            6 => S::Fixed(vec![1]),
+            7 => S::Fixed(vec![2]),
+            8 => S::MinSize(None),
+            _ => S::MinSize(Some(2)),
+        };
+        cfg.fri_config.cap_height = ((i - ZOO_BASE) % 3) as usize;
+        cfg.zero_knowledge = false;
+        return (p, inp, cfg);
+    }
     let opts = GenOpts { n_ops: rng.gen_range(20..if i % 3 == 0 { 400 } else { 120 }), lookups: i % 2 == 0, hashing: true, extension: true, max_table_len: 70, only_base2: true };
     let (p, inp) = circ::gen_program(&mut rng, &bset, &opts);
     let mut cfg = if i % 3 == 1 { circ::gen_config(&mut rng, true) } else { circ::fast_config() };
@@ -105,8 +137,7 @@ pub fn emit(dir: &Path, seed: u64, quick: bool) {
     let mut log: BTreeMap<String, String> = BTreeMap::new();
     let mut proofs: BTreeMap<String, String> = BTreeMap::new();
     let mut pow: Vec<u64> = vec![];
-    let n_circ = if quick { 6 } else { 24 };
-    for i in 0..n_circ {
+    for i in script_indices(quick) {
         let (p, inp, cfg) = script_program(seed, i);
         if i % 4 == 3 {
             emit_circuit::<KC>(&format!("circuit{i}.keccak"), p, inp, cfg, &mut log, &mut proofs, &mut pow);
@@ -162,11 +193,10 @@ pub fn emit(dir: &Path, seed: u64, quick: bool) {
 
 /// Verifies every proof found in the given directories with circuits rebuilt in THIS process.
 pub fn verify_dirs(dirs: &[PathBuf], seed: u64, quick: bool) -> Value {
-    let n_circ = if quick { 6 } else { 24 };
     let mut results: BTreeMap<String, String> = BTreeMap::new();
     let mut n_ok = 0u64;
     let load: Vec<(String, BTreeMap<String, String>)> = dirs.iter().filter_map(|d| std::fs::read_to_string(d.join("proofs.json")).ok().and_then(|s| serde_json::from_str(&s).ok()).map(|m| (d.file_name().unwrap().to_string_lossy().to_string(), m))).collect();
-    for i in 0..n_circ {
+    for i in script_indices(quick) {
         let (p, _inp, cfg) = script_program(seed, i);
         macro_rules! go {
             ($C:ty, $name:expr) => {{
